@@ -6,6 +6,7 @@ import H3Model.CompactSpec
 import H3Model.Hex2d
 import H3Model.Poly
 import H3Model.DiskSpec
+import H3Model.MultiPoly
 
 namespace H3.Ops
 open H3 H3.Proto
@@ -102,6 +103,11 @@ def opsTrav (op : String) (a : List String) : Option String :=
   | "c2vs", [h] => do
     let h ← parseH h
     pure (showR showHs (cellToVertexes h))
+  | "mploops", n :: cs => do
+    let n ← parseInt n
+    if n != (cs.length : Int) then none
+    let cs ← cs.mapM parseH
+    pure (showR (fun lps => toString lps.length ++ String.join (lps.map (fun lp => " " ++ showHs lp))) (multiPolyLoops cs))
   | "vvalid", [v] => do
     let v ← parseH v
     pure ("ok " ++ b2s (isValidVertex v))
